@@ -465,3 +465,22 @@ def repo_tests_under_contracts(contract_names, test_paths, rec, case,
         rec.violation('invariant-broken-in-the-repository-tests-'
                       + '+'.join(contract_names), ' / '.join(where)[:900],
                       case)
+
+
+_PREVIOUS = {}
+
+
+def recheck_previous(prop, rec, case, res, tag):
+    '''The result of the previous case of this process must still be what it
+    was when it was obtained, now that other data went through the same code
+    (state shared between objects, re-used buffers).  Then remember `res`.'''
+    from vf import snapshot
+    old = _PREVIOUS.get(prop)
+    if old is not None:
+        rec.count('earlier_results_rechecked')
+        if snapshot.digest(old[0]) != old[1]:
+            rec.violation('earlier-result-changed-by-a-later-evaluation',
+                          f'the result of case {old[3]} ({old[2]}) changed '
+                          f'after {tag} was evaluated',
+                          dict(case, previous=old[3]))
+    _PREVIOUS[prop] = (res, snapshot.digest(res), tag, case.get('idx'))
